@@ -107,7 +107,7 @@ def source(scn):
             "    service.call('test', 'sink', n=d['n'], fid='%(f)s', tag=kw['dec'])\n"
             "    if d['sl'] == '1':\n"
             "        task.sleep(7)\n"
-            "    vf.rec('end', '%(f)s', d['n'], kw['dec'])\n" % {"f": fid})
+            "    vf.rec('end', '%(f)s', d['n'], kw['dec'], task.current_task())\n" % {"f": fid})
     return "\n".join(out)
 
 
@@ -232,7 +232,7 @@ def run_case(scn, legacy):
         # let every sleeping run finish, then collect what each run reports at its end
         await asyncio.sleep(12)
         await w.settle()
-        ends.extend({"fid": a[1], "tag": str(a[3]), "n": str(a[2])} for (_, a, _) in all_recs + w.take() if a[0] == "end")
+        ends.extend({"fid": a[1], "tag": str(a[3]), "n": str(a[2]), "tid": "T%d" % id(a[4])} for (_, a, _) in all_recs + w.take() if a[0] == "end")
 
     ends = []
     all_recs = []
@@ -296,7 +296,20 @@ def selftest(ctx, cases):
                     ev[0]["parent"] = "0000"
                     bad.append(c3)
                 break
-    if not bad:
+    nswap = 0
+    for c in cases:
+        # two overlapping runs of one function that swap their parameters (what a shared evaluation context does)
+        prs = [(a, b) for a in range(len(c["ends"])) for b in range(a + 1, len(c["ends"]))
+               if c["ends"][a]["fid"] == c["ends"][b]["fid"] and c["ends"][a]["n"] != c["ends"][b]["n"]]
+        if prs and nswap < 20:
+            a, b = prs[0]
+            c4 = copy.deepcopy(c)
+            c4["id"] = "corrupt-swap/" + c["id"]
+            c4["ends"][a]["n"], c4["ends"][b]["n"] = c4["ends"][b]["n"], c4["ends"][a]["n"]
+            c4["ends"][a]["tag"], c4["ends"][b]["tag"] = c4["ends"][b]["tag"], c4["ends"][a]["tag"]
+            bad.append(c4)
+            nswap += 1
+    if not bad or not nswap:
         raise MachineryFailure("selftest: nothing to corrupt")
     path = os.path.join(ctx.scratch, "c08_corrupt.json")
     json.dump([{k: v for k, v in c.items() if k not in SLIM} for c in bad], open(path, "w"))
